@@ -11,3 +11,5 @@ python3 tools/extract.py >/dev/null
 for f in ibig dashu,rayon malachite,rayon num_bigint,rayon; do
   (cd harness && cargo build --offline --no-default-features --features $f --target-dir target/$(echo $f | tr , _))
 done
+# the downstream crate of C14 (public API only)
+(cd downstream && cargo build --offline --target-dir target) || echo "downstream crate does not build (C14 will report it)"
